@@ -204,6 +204,10 @@ func hasOp(h hist, kinds string) bool {
 }
 
 func (c *Ctx) checkHistC03(h hist, cases *[]mcase) {
+	c.guard("C03_no_panic", h, func() { c.checkHistC03x(h, cases) })
+}
+
+func (c *Ctx) checkHistC03x(h hist, cases *[]mcase) {
 	f, styles, err := runHist(h)
 	defer f.Close()
 	if err != nil {
